@@ -1,7 +1,7 @@
 ---- MODULE MC_Pager ----
 EXTENDS Pager
-MCFamilies == {"query", "path", "file"}
-MCSeps     == {"space", "bar", "none"}
+MCFamilies == {"query", "path", "pathmid", "pathmidext", "file"}
+MCSeps     == {"space", "bar", "none", "comma", "tightbar"}
 MCWraps    == {"div", "ulli", "span", "td", "indent"}
 MCDecos    == {"span", "strong", "b", "em", "plain", "bracket"}
 MCLabels   == {"none", "nextprev", "nextprevious", "raquo", "onlynext"}
